@@ -227,6 +227,9 @@ def streams(ctx):
         x = int(math.exp(rng.uniform(math.log(10 ** 7), math.log(hi))))
         if k % 5 == 0:
             x = rng.choice([10 ** 9, 10 ** 10, 10 ** 11, 10 ** 12]) + rng.randint(-2, 2)
+        if k % 8 in (4, 6) or k % 16 == 1:
+            # the cache of phi.cpp grows with x^(1/2.3): also visit the top decades in the quick tier
+            x = int(math.exp(rng.uniform(math.log(10 ** 12), math.log(10 ** 14))))
         r = math.isqrt(x)
         psr = pi(r) if r <= 10 ** 7 else None
         amax = min(len(P) - 1, 200000 if q else 600000)
